@@ -372,11 +372,9 @@ class PybindWrapper:
         """
         Wrap a variable that's not part of a class (i.e. global)
         """
-        variable_value = ""
-        if variable.default is None:
-            variable_value = variable.name
-        else:
-            variable_value = variable.default
+        # The attribute is bound to the C++ variable itself (its initialiser, if
+        # any, is C++ text that only means something inside its namespace).
+        variable_value = variable.name
 
         return '{prefix}{module_var}.attr("{variable_name}") = {namespace}{variable_value};'.format(
             prefix=prefix,
